@@ -1,7 +1,7 @@
 (* C05 — GRL expressions evaluate per the documented operator and literal semantics.
    The operators are the functions regenerated from pkg/reflectmath.go; doc_bin (proofs/C05Proof.v) is the documented
    semantics written independently.  The concrete syntax (precedence, literal notations, white space) is C17's parser. *)
-From Grule Require Import Base Values Syntax CmpGen ArithGen OpsGen Facts Eval Fresh C05Proof.
+From Grule Require Import Base Values Syntax CmpGen ArithGen OpsGen Facts Eval Fresh C05Proof StringBuiltins.
 Theorem C05_operators : forall o a b da db r,
   dval_of a = Some da -> dval_of b = Some db -> doc_bin o da db = Some r -> op_apply o a b = inject_res r.
 Proof. exact op_apply_documented. Qed.
@@ -35,3 +35,8 @@ Theorem C05_published_table_refuted : level_of OBitAnd <> doc_level OBitAnd.
 Proof. exact published_table_refuted_at_bitand. Qed.
 Print Assumptions C05_and_short_circuit.
 Print Assumptions C05_arguments.
+(* the string built-ins of the model satisfy the relations Go's strings package documents between them
+   (Contains = Index >= 0, HasPrefix = Index == 0, LastIndex vs Index, Count = 0 iff absent, length of Repeat) *)
+Theorem C05_string_builtins : C05_string_builtins_statement.
+Proof. exact C05_string_builtins_proved. Qed.
+Print Assumptions C05_string_builtins.
